@@ -56,6 +56,54 @@ fn cfg() -> &'static FuzzCfg {
     })
 }
 
+/// Shrink a case found by the fuzzer: rebuild the value tree from the same bytes and run proptest's
+/// simplify / complicate loop against the oracle, keeping to the signature that was found.
+pub fn shrink<P: Property>(p: &P, features: &Features, tier: Tier, data: &[u8], sig: &str, max_iters: u32) -> Option<(P::Case, String)> {
+    set_active_features(features);
+    let mut tree = decode_tree(p, features, tier, data)?;
+    let fails = |case: &P::Case| -> Option<String> {
+        let mut st = Stats::default();
+        match eval_case(p, case, &mut st) {
+            Verdict::Fail { sig: s, detail } if s == sig => Some(detail),
+            _ => None,
+        }
+    };
+    let mut best = tree.current();
+    let mut detail = fails(&best)?;
+    let mut iters = 0;
+    'outer: while iters < max_iters && tree.simplify() {
+        loop {
+            iters += 1;
+            let cur = tree.current();
+            if let Some(d) = fails(&cur) {
+                best = cur;
+                detail = d;
+                break;
+            }
+            if iters >= max_iters || !tree.complicate() {
+                break 'outer;
+            }
+        }
+    }
+    Some((best, detail))
+}
+
+fn decode_tree<P: Property>(p: &P, features: &Features, tier: Tier, data: &[u8]) -> Option<Box<dyn ValueTree<Value = P::Case>>> {
+    let strategy = p.strategy(features, tier);
+    let mut stream = Vec::with_capacity(data.len() + TAIL);
+    stream.extend_from_slice(data);
+    let mut x = hash64(data) | 1;
+    while stream.len() < data.len() + TAIL {
+        x ^= x << 13;
+        x ^= x >> 7;
+        x ^= x << 17;
+        stream.extend_from_slice(&x.wrapping_mul(0x2545F4914F6CDD1D).to_le_bytes());
+    }
+    let rng = TestRng::from_seed(RngAlgorithm::PassThrough, &stream);
+    let mut runner = TestRunner::new_with_rng(Config { failure_persistence: None, ..Config::default() }, rng);
+    strategy.new_tree(&mut runner).ok()
+}
+
 /// Decode the fuzzer's bytes into a case of property `p` (None: the strategy rejected the stream).
 pub fn decode<P: Property>(p: &P, features: &Features, tier: Tier, data: &[u8]) -> Option<P::Case> {
     // building a strategy compiles its regexes: do it once per process
@@ -130,7 +178,9 @@ fn fuzz_prop<P: Property>(p: &P, data: &[u8]) -> i32 {
                 let body = serde_json::json!({"property": c.id, "signature": sig, "detail": detail,
                     "case": serde_json::to_value(&case).unwrap_or(serde_json::Value::Null)});
                 let name = format!("{}.json", &sha_hex(&bytes)[..16]);
-                let _ = std::fs::write(PathBuf::from(&c.dir).join("found").join(name), serde_json::to_vec_pretty(&body).unwrap());
+                let _ = std::fs::write(PathBuf::from(&c.dir).join("found").join(&name), serde_json::to_vec_pretty(&body).unwrap());
+                // the fuzzer's input itself, so that the supervisor can shrink the case through the strategy
+                let _ = std::fs::write(PathBuf::from(&c.dir).join("found").join(name.replace(".json", ".bin")), data);
                 write_counters(c);
                 eprintln!("FUZZ-FOUND property={} signature={}", c.id, sig);
                 let _ = std::fs::remove_file(&journal);
